@@ -108,8 +108,13 @@ def check(repo, col, tier):
                 got = ev.call(fi, [kin.A(a) for a in args], selfv=ObjV(name))
                 if not isinstance(got, tuple) or len(got) != 2:
                     raise Und("gate function does not return a pair")
+                for kind_, stack, node_ in kin.foreign_saturation(ev):
+                    col.bad("R-C04-eq", fi, f"{fn}: `{kind_}` inside a published rate expression",
+                            f"`{unparse(node_)[:70]}` saturates a quantity of {name}.{fn}; the published equation has no such "
+                            f"bound, so the kinetics differ wherever the bound is active", node=node_)
                 for i, (g, r, lab) in enumerate(zip(got, (ra, rb), ("first", "second"))):
                     programs += 1
+                    _guard_regions(col, ev, fi, name, fn, g, r, args)
                     g = kin.main_region(g)
                     want = kin.ref(ev, r)
                     what = {"ab": ("alpha", "beta"), "inftau": ("x_inf", "tau")}[gkind][i]
@@ -126,6 +131,10 @@ def check(repo, col, tier):
             fi = repo.method(name, "update_states")
             try:
                 upd, S, P = kin.call_update(ev, repo, name, kind)
+                for kind_, stack, node_ in kin.foreign_saturation(ev):
+                    col.bad("R-C04-eq", fi, f"update_states: `{kind_}` inside the published kinetics",
+                            f"`{unparse(node_)[:70]}` saturates a quantity of {name}.update_states; the published equations "
+                            f"have no such bound, so the kinetics differ wherever the bound is active", node=node_)
                 keys = set(upd) | set(sp["states"])
                 for key in sorted(keys):
                     programs += 1
@@ -178,6 +187,48 @@ def check(repo, col, tier):
     _check_rename(repo, col)
     col.info["programs"] = programs
     col.info["disagreements_checked"] = sum(1 for o in col.obs if o.rule == "R-C04-eq" and o.status != "DISCHARGED")
+
+
+def _taylor_exprel(ev_, args, kw):
+    """exprel(u) near u = 0: 1 - u/2 + u^2/12 (used only to take the value at the singular point)."""
+    u = rat_of(args[0])
+    return PW.of(ONE - u / Rat.const(2) + u * u / Rat.const(12))
+
+
+def _guard_regions(col, ev, fi, name, fn, value, ref_text, args):
+    """On every guarded region |u| < eps of a rate, the code's value at the singular voltage must equal
+    the published rate there (exprel filled with its limit)."""
+    from sa.algebra import as_pw
+
+    pw = as_pw(value)
+    for conds, piece in pw.pieces:
+        true_guards = [g for g, b in conds if b]
+        if not true_guards:
+            continue
+        for g in true_guards:
+            gkind, lhs, bound = ev.guards[g]
+            if gkind != "abs<" or "v" not in lhs.atoms():
+                col.unk("R-C04-eq", fi, f"{fn}: guarded region", "guard is not |affine(v)| < eps", node=fi.node)
+                continue
+            ac = kin.affine_in(lhs, "v")
+            if ac is None or ac[0].is_zero():
+                col.unk("R-C04-eq", fi, f"{fn}: guarded region", "cannot solve the guard for v", node=fi.node)
+                continue
+            v0 = -ac[1] / ac[0]
+            ev2 = kin.new_eval(ev.repo)
+            ev2.opaque_calls["exprel"] = _taylor_exprel
+            # reference at the singular voltage, with the same atom table as the code side
+            ev2.atoms = ev.atoms
+            try:
+                want0 = kin.subst_var(ev, kin.ref(ev2, ref_text), "v", v0)
+                got0 = kin.subst_var(ev, piece, "v", v0)
+            except Und as e:
+                col.unk("R-C04-eq", fi, f"{fn}: value at the removable singularity v = {v0}", str(e), node=fi.node)
+                continue
+            col.check(got0.eq(want0), "R-C04-eq", fi, f"{fn}: value at the removable singularity v = {v0}",
+                      "equals the published rate (singularity filled with its limit)",
+                      f"at v = {v0} the guarded branch of {name}.{fn} evaluates to {got0} but the published rate is {want0}",
+                      node=fi.node, sides={"code": repr(got0), "reference": repr(want0)})
 
 
 def _return_elt(fn: ast.FunctionDef, i: int):
